@@ -9,12 +9,19 @@ Cases == JsonDeserialize(IOEnv.CASES)
 
 VARIABLE tid
 Init_ == tid = 1
+\* rejected queries of a case: "<index>=<diagnosis>" of the first two, and their number
+RejectedSet(c) == {i \in 1..Len(c.queries) : ~QueryOK(c.T, c.queries[i])}
+Show(c, i) == ToString(i) \o "=" \o Diag(c.T, c.queries[i])
 Next_ ==
   /\ tid <= Len(Cases)
   /\ LET c   == Cases[tid]
-         bad == {i \in 1..Len(c.queries) : ~QueryOK(c.T, c.queries[i])}
-         fst == IF bad = {} THEN 0 ELSE CHOOSE i \in bad : \A j \in bad : i <= j
-     IN  PrintT(<<"VERDICT", c.id, bad = {}, IF bad = {} THEN "ok" ELSE c.queries[fst].label, fst>>)
+         bad == RejectedSet(c)
+         i1  == MinOf(bad)
+     IN  PrintT(<<"VERDICT", c.id, bad = {},
+                  IF bad = {} THEN "ok"
+                  ELSE IF Cardinality(bad) = 1 THEN Show(c, i1)
+                  ELSE Show(c, i1) \o ";" \o Show(c, MinOf(bad \ {i1})),
+                  Cardinality(bad)>>)
   /\ tid' = tid + 1
 TraceSpec == Init_ /\ [][Next_]_tid
 =============================================================================
